@@ -42,6 +42,7 @@ PLACEMENTS = {
     "P14": ("VJOURNAL", ["DTSTART;TZID=:20240601T100000"], {""}),
 }
 PRESETS = ("tzA", "tzA2", "tzT", "tzC", "tzX", "tzNoId")
+# outside the subset enumeration: "tzW" (id that needs quoting), "tzBn" (VTIMEZONE of B nested inside an unknown component)
 
 _VTZ_CACHE = {}
 
@@ -64,15 +65,18 @@ def vtz_text(tzid):
 def preset_ids(presets):
     ids = []
     for p in presets:
-        ids.append({"tzA": A, "tzA2": A, "tzT": T_UNUSED, "tzC": C, "tzX": X_UNUSED, "tzNoId": None, "tzW": W}[p])
+        ids.append({"tzA": A, "tzA2": A, "tzT": T_UNUSED, "tzC": C, "tzX": X_UNUSED, "tzNoId": None, "tzW": W, "tzBn": B}[p])
     return ids
 
 
 def build_text(placements, presets):
     """A calendar text: VTIMEZONEs first, then one component per top-level kind holding the placement lines."""
     body = []
-    for tzid in preset_ids(presets):
-        body.append(vtz_text(tzid).rstrip("\r\n"))
+    for pname, tzid in zip(presets, preset_ids(presets)):
+        if pname == "tzBn":  # "in the calendar" is not "a direct child of the calendar"
+            body.append("BEGIN:X-WRAP\r\n" + vtz_text(tzid).rstrip("\r\n") + "\r\nEND:X-WRAP")
+        else:
+            body.append(vtz_text(tzid).rstrip("\r\n"))
     tree = {}
     for p in placements:
         path, lines, _ = PLACEMENTS[p]
@@ -100,8 +104,15 @@ def build_api(placements, presets):
     cal = Calendar()
     cal.add("version", "2.0")
     cal.add("prodid", "c18")
-    for tzid in preset_ids(presets):
-        cal.add_component(Timezone.from_ical(vtz_text(tzid)))
+    for pname, tzid in zip(presets, preset_ids(presets)):
+        vt = Timezone.from_ical(vtz_text(tzid))
+        if pname == "tzBn":
+            wrap = Component()
+            wrap.name = "X-WRAP"
+            wrap.add_component(vt)
+            cal.add_component(wrap)
+        else:
+            cal.add_component(vt)
     comps = {}
 
     def get(path):
@@ -285,6 +296,12 @@ def run(ctx):
         for placements in subsets(pl, 1):
             for presets in ((), ("tzA",), ("tzT", "tzNoId")):
                 yield ("c", "zoneinfo", "parse", placements, presets, None)
+        # the VTIMEZONE of a used id nested inside another component of the calendar
+        for provider in env.PROVIDERS:
+            for how in ("parse", "api"):
+                for placements in (("P2",), ("P1", "P2"), ("P6", "P8")):
+                    for presets in (("tzBn",), ("tzA", "tzBn"), ("tzBn", "tzT")):
+                        yield ("c", provider, how, placements, presets, WINDOW)
         # an id that needs quoting (parameter) and escaping (TZID property), with and without its own VTIMEZONE
         for provider in env.PROVIDERS:
             for how in ("parse", "api"):
